@@ -28,6 +28,8 @@ val eqb : nat -> nat -> bool
 
 val leb : nat -> nat -> bool
 
+val ltb : nat -> nat -> bool
+
 val divmod : nat -> nat -> nat -> nat -> nat * nat
 
 val modulo : nat -> nat -> nat
@@ -43,9 +45,21 @@ type n =
 
 module Nat :
  sig
+  val sub : nat -> nat -> nat
+
   val eqb : nat -> nat -> bool
 
   val leb : nat -> nat -> bool
+
+  val ltb : nat -> nat -> bool
+
+  val min : nat -> nat -> nat
+
+  val divmod : nat -> nat -> nat -> nat -> nat * nat
+
+  val div : nat -> nat -> nat
+
+  val modulo : nat -> nat -> nat
  end
 
 module Pos :
@@ -95,9 +109,21 @@ module Coq_Pos :
 
   val eqb : positive -> positive -> bool
 
+  val leb : positive -> positive -> bool
+
+  val sqrtrem_step :
+    (positive -> positive) -> (positive -> positive) -> (positive * mask) ->
+    positive * mask
+
+  val sqrtrem : positive -> positive * mask
+
+  val sqrt : positive -> positive
+
   val coq_Nsucc_double : n -> n
 
   val coq_Ndouble : n -> n
+
+  val coq_lor : positive -> positive -> positive
 
   val coq_land : positive -> positive -> n
 
@@ -138,6 +164,8 @@ module N :
 
   val min : n -> n -> n
 
+  val max : n -> n -> n
+
   val div2 : n -> n
 
   val pow : n -> n -> n
@@ -149,6 +177,10 @@ module N :
   val div : n -> n -> n
 
   val modulo : n -> n -> n
+
+  val sqrt : n -> n
+
+  val coq_lor : n -> n -> n
 
   val coq_land : n -> n -> n
 
@@ -172,6 +204,8 @@ val tl : 'a1 list -> 'a1 list
 val nth : nat -> 'a1 list -> 'a1 -> 'a1
 
 val nth_error : 'a1 list -> nat -> 'a1 option
+
+val rev : 'a1 list -> 'a1 list
 
 val concat : 'a1 list list -> 'a1 list
 
@@ -233,6 +267,8 @@ val wrap : n -> n -> n
 
 val u8 : n -> n
 
+val u16 : n -> n
+
 val u32 : n -> n
 
 val add_w : mode -> n -> n -> n -> n outcome
@@ -271,6 +307,8 @@ val tUPLE_V_RANGE : n
 
 val dEG_V_LIMIT : n
 
+val dEFAULT_MEMORY : n
+
 val dEG_F : n list
 
 val pOLY : n
@@ -296,6 +334,98 @@ val oti_wire : n -> n -> n -> n -> n -> n list
 val cdiv : n -> n -> n
 
 val oti_validb : n -> n -> n -> n -> bool
+
+val rFC_V0 : n list
+
+val rFC_V1 : n list
+
+val rFC_V2 : n list
+
+val rFC_V3 : n list
+
+val rFC_DEG_F : n list
+
+val rFC_TUPLE_A_BASE : n
+
+val rFC_TUPLE_A_MUL : n
+
+val rFC_TUPLE_B_MUL : n
+
+val rfc_v : n list -> n -> n
+
+val rand : n -> n -> n -> n
+
+val rfc_f : n -> n
+
+val deg_index : n -> n
+
+val deg : n -> n -> n
+
+val tuple_A : n -> n
+
+val tuple_B : n -> n
+
+val tuple_y : n -> n -> n
+
+val tuple : n -> n -> n -> n -> ((((n * n) * n) * n) * n) * n
+
+val no_divisor_from : nat -> n -> n -> bool
+
+val is_prime : n -> bool
+
+val tABLE2 : ((((n * n) * n) * n) * n) list
+
+val p1_TABLE : (n * n) list
+
+val kprimes : n list
+
+val pick_le : n -> n -> n option -> n option
+
+val greatest_le : n -> n list -> n option
+
+val al_of : n -> n
+
+val sS_of : n -> n
+
+val t_of : n -> n
+
+val kt_of : n -> n -> n
+
+val nmax_of : n -> n
+
+val kL_bound : n -> n -> n -> n
+
+val kL : n -> n -> n -> n option
+
+val z_of : n -> n -> n -> n
+
+val fits : n -> n -> n -> n -> bool
+
+val n_opt : n -> n -> n -> n option
+
+val n_of : n -> n -> n -> n
+
+val db : n -> n -> n -> bool
+
+val int_div_ceil : mode -> n -> n -> n outcome
+
+val kl_scan :
+  bool -> mode -> n -> n -> n -> n -> ((((n * n) * n) * n) * n) list -> n
+  outcome
+
+val kl : bool -> mode -> n -> n -> n -> n -> n outcome
+
+val nsearch :
+  bool -> mode -> n -> n -> n -> n -> n -> nat -> n -> n -> n outcome
+
+val gen_params_body :
+  bool -> mode -> n -> n -> n -> n -> n -> ((((n * n) * n) * n) * n) outcome
+
+val gen_params :
+  bool -> mode -> n -> n -> n -> ((((n * n) * n) * n) * n) outcome
+
+val with_defaults :
+  bool -> mode -> n -> n -> ((((n * n) * n) * n) * n) outcome
 
 val oCT_EXP : n list
 
@@ -424,195 +554,6 @@ val cache_trace_from : nat -> ((n * n) * n) list -> n sysstate -> n list list
 
 val cache_trace : nat -> ((n * n) * n) list -> n list list
 
-val vadd : n list -> n list -> n list
-
-val vzero : nat -> n list
-
-val vec_eqb : n list -> n list -> bool
-
-val map2 : ('a1 -> 'a2 -> 'a3) -> 'a1 list -> 'a2 list -> 'a3 list
-
-val vscale : (n -> n -> n) -> n -> n list -> n list
-
-val lincomb : (n -> n -> n) -> nat -> n list -> n list list -> n list
-
-val pick_row : n list list -> (n list * n list list) option
-
-val pick_rhs : n list list -> n list list -> n list * n list list
-
-val elim_coef : (n -> n -> n) -> (n -> n) -> n list -> n list -> n
-
-val elim_row : (n -> n -> n) -> (n -> n) -> n list -> n list -> n list
-
-val elim_rhs :
-  (n -> n -> n) -> (n -> n) -> n list -> n list -> n list -> n list -> n list
-
-val gauss_solve :
-  (n -> n -> n) -> (n -> n) -> nat -> nat -> n list list -> n list list -> n
-  list list option
-
-type cfg = { cF : n; cT : n; cZ : n; cN : n; cAl : n }
-
-val ceil : n -> n -> n
-
-val floor : n -> n -> n
-
-val partition : n -> n -> ((n * n) * n) * n
-
-val q1 : (((n * n) * n) * n) -> n
-
-val q2 : (((n * n) * n) * n) -> n
-
-val q3 : (((n * n) * n) * n) -> n
-
-val sumN : n list -> n
-
-val kt : cfg -> n
-
-val kL : cfg -> n
-
-val kS : cfg -> n
-
-val zL : cfg -> n
-
-val tL : cfg -> n
-
-val tS : cfg -> n
-
-val nL : cfg -> n
-
-val blk_K : cfg -> n -> n
-
-val blk_off : cfg -> n -> n
-
-val obj_byte : n list -> n -> n
-
-val blk_byte : cfg -> n list -> n -> n -> n
-
-val sub_len : cfg -> n -> n
-
-val sub_off : cfg -> n -> n -> n
-
-val sub_symbol : cfg -> n list -> n -> n -> n -> n list
-
-val symbol : cfg -> n list -> n -> n -> n list
-
-val source_packets_spec : cfg -> n list -> ((n * n) * n list) list
-
-val rFC_V0 : n list
-
-val rFC_V1 : n list
-
-val rFC_V2 : n list
-
-val rFC_V3 : n list
-
-val rFC_DEG_F : n list
-
-val rFC_TUPLE_A_BASE : n
-
-val rFC_TUPLE_A_MUL : n
-
-val rFC_TUPLE_B_MUL : n
-
-val rfc_v : n list -> n -> n
-
-val rand : n -> n -> n -> n
-
-val rfc_f : n -> n
-
-val deg_index : n -> n
-
-val deg : n -> n -> n
-
-val tuple_A : n -> n
-
-val tuple_B : n -> n
-
-val tuple_y : n -> n -> n
-
-val tuple : n -> n -> n -> n -> ((((n * n) * n) * n) * n) * n
-
-type cparams = { cK : n; cJ : n; cS : n; cH : n; cW : n; cP1 : n }
-
-val cL : cparams -> n
-
-val cP : cparams -> n
-
-val cB : cparams -> n
-
-val b2n : bool -> n
-
-val parity : n -> n
-
-val ldpc_count : cparams -> n -> n -> n
-
-val ldpc_entry : cparams -> n -> n -> n
-
-val alpha_pow : n -> n
-
-val mT : cparams -> n -> n -> n
-
-val gAMMA : n -> n -> n
-
-val g_HDPC : cparams -> n -> n -> n
-
-val hdpc_entry : cparams -> n -> n -> n
-
-val enc_lt : nat -> n -> n -> n -> n list
-
-val enc_skip : nat -> n -> n -> n -> n -> n
-
-val enc_pi : nat -> nat -> n -> n -> n -> n -> n -> n list
-
-val enc_indices : cparams -> (((((n * n) * n) * n) * n) * n) -> n list
-
-val tuple_of : cparams -> n -> ((((n * n) * n) * n) * n) * n
-
-val count_occ_N : n list -> n -> n
-
-val enc_entry : cparams -> n -> n -> n
-
-val a_entry : cparams -> n list -> n -> n -> n
-
-val a_rfc : cparams -> n list -> n list list
-
-val vxor : n list -> n list -> n list
-
-val enc :
-  cparams -> nat -> n list list -> (((((n * n) * n) * n) * n) * n) -> n list
-
-module PositiveMap :
- sig
-  type key = positive
-
-  type 'a tree =
-  | Leaf
-  | Node of 'a tree * 'a option * 'a tree
-
-  type 'a t = 'a tree
-
-  val empty : 'a1 t
-
-  val find : key -> 'a1 t -> 'a1 option
-
-  val add : key -> 'a1 -> 'a1 t -> 'a1 t
- end
-
-val fmul_key : n -> n -> positive
-
-val fmul_table : n PositiveMap.t
-
-val fmul : n -> n -> n
-
-val finv_table : n PositiveMap.t
-
-val finv : n -> n
-
-val tABLE2 : ((((n * n) * n) * n) * n) list
-
-val p1_TABLE : (n * n) list
-
 val r_k : ((((n * n) * n) * n) * n) -> n
 
 val r_j : ((((n * n) * n) * n) * n) -> n
@@ -666,8 +607,159 @@ val pi_skip : mode -> nat -> n -> n -> n -> n -> n outcome
 
 val pi_loop : mode -> nat -> nat -> n -> n -> n -> n -> n -> n list outcome
 
-val enc_indices0 :
+val enc_indices :
   mode -> (((((n * n) * n) * n) * n) * n) -> n -> n -> n -> n list outcome
+
+val vadd : n list -> n list -> n list
+
+val vzero : nat -> n list
+
+val vec_eqb : n list -> n list -> bool
+
+val map2 : ('a1 -> 'a2 -> 'a3) -> 'a1 list -> 'a2 list -> 'a3 list
+
+val vscale : (n -> n -> n) -> n -> n list -> n list
+
+val lincomb : (n -> n -> n) -> nat -> n list -> n list list -> n list
+
+val pick_row : n list list -> (n list * n list list) option
+
+val pick_rhs : n list list -> n list list -> n list * n list list
+
+val elim_coef : (n -> n -> n) -> (n -> n) -> n list -> n list -> n
+
+val elim_row : (n -> n -> n) -> (n -> n) -> n list -> n list -> n list
+
+val elim_rhs :
+  (n -> n -> n) -> (n -> n) -> n list -> n list -> n list -> n list -> n list
+
+val gauss_solve :
+  (n -> n -> n) -> (n -> n) -> nat -> nat -> n list list -> n list list -> n
+  list list option
+
+type cfg = { cF : n; cT : n; cZ : n; cN : n; cAl : n }
+
+val ceil : n -> n -> n
+
+val floor : n -> n -> n
+
+val partition : n -> n -> ((n * n) * n) * n
+
+val q1 : (((n * n) * n) * n) -> n
+
+val q2 : (((n * n) * n) * n) -> n
+
+val q3 : (((n * n) * n) * n) -> n
+
+val sumN : n list -> n
+
+val kt : cfg -> n
+
+val kL0 : cfg -> n
+
+val kS : cfg -> n
+
+val zL : cfg -> n
+
+val tL : cfg -> n
+
+val tS : cfg -> n
+
+val nL : cfg -> n
+
+val blk_K : cfg -> n -> n
+
+val blk_off : cfg -> n -> n
+
+val obj_byte : n list -> n -> n
+
+val blk_byte : cfg -> n list -> n -> n -> n
+
+val sub_len : cfg -> n -> n
+
+val sub_off : cfg -> n -> n -> n
+
+val sub_symbol : cfg -> n list -> n -> n -> n -> n list
+
+val symbol : cfg -> n list -> n -> n -> n list
+
+val source_packets_spec : cfg -> n list -> ((n * n) * n list) list
+
+type cparams = { cK : n; cJ : n; cS : n; cH : n; cW : n; cP1 : n }
+
+val cL : cparams -> n
+
+val cP : cparams -> n
+
+val cB : cparams -> n
+
+val b2n : bool -> n
+
+val parity : n -> n
+
+val ldpc_count : cparams -> n -> n -> n
+
+val ldpc_entry : cparams -> n -> n -> n
+
+val alpha_pow : n -> n
+
+val mT : cparams -> n -> n -> n
+
+val gAMMA : n -> n -> n
+
+val g_HDPC : cparams -> n -> n -> n
+
+val hdpc_entry : cparams -> n -> n -> n
+
+val enc_lt : nat -> n -> n -> n -> n list
+
+val enc_skip : nat -> n -> n -> n -> n -> n
+
+val enc_pi : nat -> nat -> n -> n -> n -> n -> n -> n list
+
+val enc_indices0 : cparams -> (((((n * n) * n) * n) * n) * n) -> n list
+
+val tuple_of : cparams -> n -> ((((n * n) * n) * n) * n) * n
+
+val count_occ_N : n list -> n -> n
+
+val enc_entry : cparams -> n -> n -> n
+
+val a_entry : cparams -> n list -> n -> n -> n
+
+val a_rfc : cparams -> n list -> n list list
+
+val vxor : n list -> n list -> n list
+
+val enc :
+  cparams -> nat -> n list list -> (((((n * n) * n) * n) * n) * n) -> n list
+
+module PositiveMap :
+ sig
+  type key = positive
+
+  type 'a tree =
+  | Leaf
+  | Node of 'a tree * 'a option * 'a tree
+
+  type 'a t = 'a tree
+
+  val empty : 'a1 t
+
+  val find : key -> 'a1 t -> 'a1 option
+
+  val add : key -> 'a1 -> 'a1 t -> 'a1 t
+ end
+
+val fmul_key : n -> n -> positive
+
+val fmul_table : n PositiveMap.t
+
+val fmul : n -> n -> n
+
+val finv_table : n PositiveMap.t
+
+val finv : n -> n
 
 val zero_matrix : nat -> nat -> n list list
 
@@ -719,7 +811,7 @@ val write_slice : n list -> n -> n list -> n list outcome
 
 val enumerate_from : n -> 'a1 list -> (n * 'a1) list
 
-val int_div_ceil : n -> n -> n outcome
+val int_div_ceil0 : n -> n -> n outcome
 
 val partition0 : n -> n -> (((n * n) * n) * n) outcome
 
@@ -762,9 +854,47 @@ val block_from_all_source : cfg -> n -> n list list -> n list outcome
 
 val reassemble : cfg -> n list list -> n list
 
+type slab = { sl_data : n list list; sl_ss : nat; sl_map : n list option }
+
+val slab_count : slab -> nat
+
+val phys : slab -> n -> n outcome
+
+val slab_get : slab -> n -> n list outcome
+
+val list_set : 'a1 list -> nat -> 'a1 -> 'a1 list
+
+val slab_put : slab -> n -> n list -> slab
+
+val slab_pair : slab -> n -> n -> ((n * n list) * n list) outcome
+
 val map0 : ('a1 -> 'a2 -> 'a3) -> 'a1 list -> 'a2 list -> 'a3 list
 
 val bytes_add : n list -> n list -> n list
+
+val bytes_mul : n -> n list -> n list
+
+val bytes_fma : n -> n list -> n list -> n list
+
+val slab_add_assign : slab -> n -> n -> slab outcome
+
+val slab_mulassign : slab -> n -> n -> slab outcome
+
+val slab_fma : mode -> slab -> n -> n -> n -> slab outcome
+
+val slab_set_reorder : slab -> n list -> slab
+
+type symbol_op =
+| SAdd of n * n
+| SMul of n * n
+| SFMA of n * n * n
+| SReorder of n list
+
+val perform_op : mode -> symbol_op -> slab -> slab outcome
+
+val replay : mode -> symbol_op list -> slab -> slab outcome
+
+val slab_read : slab -> nat -> n -> n list list outcome
 
 val create_d : sysparams -> n list list -> nat -> n list list
 
@@ -872,6 +1002,182 @@ val run_layout_roundtrip : mode -> n list -> n list
 
 val run_spec_layout_packets : n list -> n list
 
+val decode_ops : nat -> n list -> symbol_op list
+
+val run_slab_replay : mode -> n list -> n list
+
+type bvec = n list * n
+
+val bv_padding : n -> n
+
+val bit_at : n list -> n -> n
+
+val to_bits : bvec -> n list
+
+val map1 : ('a1 -> 'a2 -> 'a3) -> 'a1 list -> 'a2 list -> 'a3 list
+
+val range : nat -> nat -> nat list
+
+val ofold0 : ('a2 -> 'a1 -> 'a2 outcome) -> 'a1 list -> 'a2 -> 'a2 outcome
+
+val le_val : n list -> n
+
+val le_bytes : nat -> n -> n list
+
+val loadu : nat -> n list -> nat -> n list outcome
+
+val storeu : n list -> nat -> n list -> n list outcome
+
+val get_unchecked : n list -> nat -> n outcome
+
+val set_unchecked : n list -> nat -> n -> n list outcome
+
+val v_and : n list -> n list -> n list
+
+val v_xor : n list -> n list -> n list
+
+val v_andnot : n list -> n list -> n list
+
+val v_cmpeq_epi8 : n list -> n list -> n list
+
+val v_setzero : nat -> n list
+
+val v_set1_epi8 : nat -> n -> n list
+
+val v_set1_epi32 : nat -> n -> n list
+
+val v_set1_epi64x : nat -> n -> n list
+
+val v_set_epi64x : n -> n -> n -> n -> n list
+
+val v_broadcast128 : nat -> n list -> n list
+
+val pshufb128 : n list -> n list -> n list
+
+val v_shuffle_epi8 : nat -> n list -> n list -> n list
+
+val v_srli_epi64 : nat -> n -> n list -> n list
+
+val v_maskz_mov_epi8 : n -> n list -> n list
+
+val bextr2_u32 : n -> n -> n
+
+val wORD_WIDTH : n
+
+val padding_bits : bvec -> n
+
+val select_mask : n -> n outcome
+
+val to_octet_vec_loop : n list -> nat -> n -> n -> ((n list * n) * n) outcome
+
+val to_octet_vec : bvec -> n list outcome
+
+val u32_view : n list -> n list
+
+val xor_u64_loop : nat -> nat -> n list -> n list -> n list outcome
+
+val xor_byte_loop : nat -> nat -> n list -> n list -> n list outcome
+
+val add_assign_fallback : n list -> n list -> n list outcome
+
+val add_assign_simd : nat -> n list -> n list -> n list outcome
+
+val add_assign_avx512 : n list -> n list -> n list outcome
+
+val add_assign_avx2 : n list -> n list -> n list outcome
+
+val add_assign_ssse3 : n list -> n list -> n list outcome
+
+val octet_mul_unchecked : n -> n -> n outcome
+
+val mul_byte_loop : nat -> nat -> n -> n list -> n list outcome
+
+val mulassign_scalar_fallback : n list -> n -> n list outcome
+
+val mulvec_avx512 : n list -> n list -> n list -> n list
+
+val mulvec_avx2 : n list -> n list -> n list -> n list
+
+val mulvec_ssse3 : n list -> n list -> n list -> n list
+
+val load_low_table : nat -> n -> n list outcome
+
+val load_hi_table : nat -> n -> n list outcome
+
+val mulassign_scalar_avx512 : n list -> n -> n list outcome
+
+val mulassign_scalar_avx2 : n list -> n -> n list outcome
+
+val mulassign_scalar_ssse3 : n list -> n -> n list outcome
+
+val fma_byte_loop : nat -> nat -> n -> n list -> n list -> n list outcome
+
+val fused_addassign_mul_scalar_fallback :
+  n list -> n list -> n -> n list outcome
+
+val fused_addassign_mul_scalar_avx512 :
+  n list -> n list -> n -> n list outcome
+
+val fused_addassign_mul_scalar_avx2 : n list -> n list -> n -> n list outcome
+
+val fused_addassign_mul_scalar_ssse3 : n list -> n list -> n -> n list outcome
+
+val sub_usize : nat -> nat -> nat outcome
+
+val fused_addassign_mul_scalar_binary_avx2 :
+  n list -> bvec -> n -> n list outcome
+
+val fused_addassign_mul_scalar_binary_avx512 :
+  n list -> bvec -> n -> n list outcome
+
+type feature =
+| AVX512F
+| AVX512BW
+| AVX2
+| BMI1
+| SSSE3
+
+val feature_eqb : feature -> feature -> bool
+
+type cpu = feature list
+
+val has : cpu -> feature -> bool
+
+val debug_assert : mode -> bool -> unit outcome
+
+val add_assign : cpu -> n list -> n list -> n list outcome
+
+val mulassign_scalar : cpu -> n list -> n -> n list outcome
+
+val fused_addassign_mul_scalar :
+  mode -> cpu -> n list -> n list -> n -> n list outcome
+
+val fused_addassign_mul_scalar_binary_generic :
+  mode -> cpu -> n list -> bvec -> n -> n list outcome
+
+val fused_addassign_mul_scalar_binary :
+  mode -> cpu -> n list -> bvec -> n -> n list outcome
+
+val kargn : n list -> nat -> n
+
+val kenc : n list outcome -> n list
+
+val host_cpu : cpu
+
+val run_k_add : n list -> n list
+
+val run_k_mul : n list -> n list
+
+val run_k_fma : mode -> n list -> n list
+
+val run_k_fmabin : mode -> n list -> n list
+
+val run_k_unpack : n list -> n list
+
+val run_spec_bits : n list -> n list
+
+val run_kern : n -> n list -> n list
+
 val pcode : pclass -> n
 
 val enc1 : n outcome -> n list
@@ -895,5 +1201,11 @@ val triples : n list -> ((n * n) * n) list
 val run_wire : n -> n list -> n list
 
 val run_codec : n -> n list -> n list
+
+val enc_t6 : (((((n * n) * n) * n) * n) * n) outcome -> n list
+
+val t6_of : n list -> ((((n * n) * n) * n) * n) * n
+
+val run_tuple : n -> n list -> n list
 
 val run : n -> n list -> n list
